@@ -9,12 +9,20 @@ Floats are IEEE bit patterns. Commands:
   segg np x1 y1 x2 y2 x y       → as `seg`; `np` = `1` when the segment is a numpy array (`-c / b` never raises)
   polyxy np <X list> <Y list> x y → as `poly`, the two sequences as given (any lengths) | `err index`
   map3 <X> <Y> <Z> x y z        → `ok xp yp zp d i`       (mapOnTrack with a 3D coordinate on a 3D track)
-  mapt3 <X> <Y> <Z> <QX> <QY> <QZ> → `ok xp,yp,zp,d,i;…`  (mapOnTrack with a 3D track of queries) -/
+  mapt3 <X> <Y> <Z> <QX> <QY> <QZ> → `ok xp,yp,zp,d,i;…`  (mapOnTrack with a 3D track of queries)
+The `proj_polyligne` requests (`poly`, `polyxy`) are answered with the SENTINEL-FAITHFUL forms of the model
+(`projPolyligneS`, `projPolyligneXYS`, sentinel `inf = 1.0 / 0.0`, the double Python reads `1e400` as): the test is
+`dist < inf` as in the code, so an input whose distances are all `inf`/NaN answers `err unbound` where Python raises
+`UnboundLocalError` (`Tie/C20.lean` `tie_proj_polyligne_exact`). The `mapOnTrack` requests (`map`, `mapt`, `map3`, `mapt3`)
+still go through the `none`-state forms (`projOnTrack`, …), equal to the former whenever a distance met is finite. -/
 namespace TV.Drv.C20
 open TV.Proj TV.Drv
 
 /-- the literal `1e-16` of `proj_polyligne` (bit pattern of Python's `1e-16`) -/
 def eps : Float := Float.ofBits 4367597403136100796
+
+/-- the sentinel `distmin = 1e400` of `proj_polyligne`: Python reads the literal as the double `+inf` -/
+def inf : Float := 1.0 / 0.0
 
 def showErr : Err → String
   | .zerodiv => "err zerodiv"
@@ -54,7 +62,7 @@ def handle (cmd : String) (args : List String) : String :=
       match zipPts? xs ys with
       | none => "bad-request"
       | some pts =>
-        match projPolyligne Float.sqrt eps pts x y with
+        match projPolyligneS inf Float.sqrt eps pts x y with
         | .error e => showErr e
         | .ok r => s!"ok {showFloat r.1} {showFloat r.2.1} {showFloat r.2.2.1} {r.2.2.2}"
     | _, _, _, _ => "bad-request"
@@ -88,7 +96,7 @@ def handle (cmd : String) (args : List String) : String :=
   | "polyxy", [np, xs, ys, qx, qy] =>
     match bool? np, floatList? xs, floatList? ys, float? qx, float? qy with
     | some np, some xs, some ys, some x, some y =>
-      match projPolyligneXY np Float.sqrt eps xs ys x y with
+      match projPolyligneXYS np inf Float.sqrt eps xs ys x y with
       | .error e => showErrX e
       | .ok r => s!"ok {showFloat r.1} {showFloat r.2.1} {showFloat r.2.2.1} {r.2.2.2}"
     | _, _, _, _, _ => "bad-request"
